@@ -85,14 +85,14 @@ PARAM_PLACEMENTS_20 = {"none": 0, "x-example": 1, "x-examples1": 1, "x-examples2
 
 BODY_PLACEMENTS_3X = {
     "none": 0, "example": 1, "examples1": 1, "ref1": 1, "schema_example": 1, "prop1": 1, "prop1_req": 1, "items": 1, "items_prop": 1,
-    "prop_prop": 1, "prop_items": 1, "ref_prop1": 1, "prop_ref": 1,
+    "prop_prop": 1, "prop_items": 1, "ref_prop1": 1, "prop_ref": 1, "prop_allOf_req2": 1, "prop_allOf_req3": 1, "items_allOf_req2": 1,
     "examples2": 2, "ref_value": 2, "ref2": 2, "both": 2, "anyOf2": 2, "oneOf2": 2, "allOf2": 2, "prop1_1": 2, "prop2": 2,
     "prop_in_anyOf": 2, "prop_in_oneOf": 2, "prop_in_allOf": 2,
     "prop2_1": 3, "prop2_1_req": 3,
 }
 BODY_PLACEMENTS_31 = {"schema_examples1": 1, "schema_examples2": 2, "prop_examples2_1": 3}
 BODY_PLACEMENTS_20 = {
-    "none": 0, "x-example": 1, "x-examples1": 1, "schema_example": 1, "prop1": 1, "prop1_req": 1, "items": 1, "prop_prop": 1, "ref_prop1": 1,
+    "none": 0, "x-example": 1, "x-examples1": 1, "schema_example": 1, "prop1": 1, "prop1_req": 1, "items": 1, "prop_prop": 1, "ref_prop1": 1, "prop_allOf_req2": 1,
     "x-examples2": 2, "x_and_schema": 2, "allOf2": 2, "prop1_1": 2, "prop_in_allOf": 2, "prop2_1_req": 3,
 }
 FORM_PLACEMENTS = {"none": 0, "example": 1, "prop1": 1, "prop1_req": 1, "examples2": 2, "prop1_1": 2}
@@ -266,6 +266,18 @@ def body_media(spec: str, idx: int, b: dict, components: dict) -> dict:
     elif placement in ("prop_in_anyOf", "prop_in_oneOf", "prop_in_allOf"):
         comb = placement[len("prop_in_"):]
         media["schema"] = {comb: [{"type": "object", "properties": {"a": prop(pv[0])}}, {"type": "object", "properties": {"b": prop(pv[1], "string")}}]}
+    elif placement in ("prop_allOf_req2", "prop_allOf_req3", "items_allOf_req2"):
+        # an example on a property of an allOf-composed object whose *other* branches declare required properties
+        # without examples: the fill-in must still honour every branch's `required`
+        branches = [{"type": "object", "properties": {"a": prop(pv[0])}, "required": ["a"]},
+                    {"type": "object", "properties": {"r": {"type": "integer"}}, "required": ["r"]}]
+        if placement == "prop_allOf_req3":
+            branches.append({"type": "object", "properties": {"s": {"type": "string", "maxLength": 2}}, "required": ["s"]})
+        composed = {"allOf": branches}
+        if placement == "items_allOf_req2":
+            media["schema"] = {"type": "array", "items": composed, "minItems": 1}
+        else:
+            media["schema"] = {"type": "object", "properties": {"n": composed}, "required": ["n"]}
     elif placement == "ref_prop1":
         schemas[f"B{idx}S"] = {"type": "object", "properties": {"a": prop(pv[0])}}
         media["schema"] = {"$ref": f"{sprefix}B{idx}S"}
@@ -868,8 +880,12 @@ def check_constructed(res: Result, facts: dict, rdetail: dict, doc: dict, spec: 
                       slot_entries: list[dict], *, stringly: bool, whole_generated: bool, depth: int = 0) -> None:
     """A body assembled from nested examples: required properties are present, the parts without an example conform."""
     schema = walker.deref(doc, schema)
-    if not isinstance(schema, dict) or depth > 6 or any(k in schema for k in ("anyOf", "oneOf", "allOf", "not")):
+    if not isinstance(schema, dict) or depth > 6 or any(k in schema for k in ("anyOf", "oneOf", "not")):
         return
+    for branch in schema.get("allOf", []) or []:
+        # every allOf branch constrains the same value: its `required` and its properties apply as well
+        check_constructed(res, facts, rdetail, doc, spec, branch, value, prefix, slot_entries, stringly=stringly,
+                          whole_generated=whole_generated, depth=depth + 1)
     if isinstance(value, dict) and isinstance(schema.get("properties"), dict):
         for name in schema.get("required", []) or []:
             sub_prefix = prefix + [["prop", name]]
